@@ -39,6 +39,7 @@ static void exec_op(int tid, int idx, mInstance* inst, Op* o) {
     unsigned long long res = 0;
     int a0 = vs_acq_count(vs_self());
     unsigned long s0 = vs_stamp(), s1;
+    long long t0 = vs_now();
     int a1, k;
     switch (o->op) {
     case 0: res = m_wait32(inst, (U32)o->a, (U32)o->b, (U64)o->c); break;
@@ -53,6 +54,9 @@ static void exec_op(int tid, int idx, mInstance* inst, Op* o) {
     }
     s1 = vs_stamp();
     a1 = vs_acq_count(vs_self());
+    /* "timed-out" is the answer only when the timeout has elapsed: on the virtual clock, at least o->c ns since the call began */
+    if ((o->op == 0 || o->op == 1) && res == 2 && o->c >= 0 && o->c < (1LL << 50) && vs_now() - t0 < o->c)
+        printf("EARLY %d %d %lld %lld\n", tid, idx, vs_now() - t0, o->c);
     printf("E %d %d %d %llu %llu %lld %llu %lu %lu %d", tid, idx, o->op, o->a, o->b, o->c, res, s0, s1, a1 - a0);
     for (k = a0; k < a1; k++) printf(" %lu", vs_acq_stamp(vs_self(), k));
     printf("\n");
